@@ -24,7 +24,7 @@ FAMS = ["duration", "size", "date", "malformed", "printparse", "cfg"]
 
 
 def plan(tier):
-    n = 250 if tier == "quick" else 4000
+    n = 750 if tier == "quick" else 4000
     return [{"kind": "hyp", "fam": f, "n": n if f != "cfg" else max(60, n // 4)} for f in FAMS for _ in range(2)] + \
            [{"kind": "hyp", "fam": "malformed", "n": n} for _ in range(4)]
 
